@@ -21,6 +21,8 @@ mod verif_c05;
 #[cfg(all(test, feature = "verif"))]
 mod verif_c06;
 #[cfg(all(test, feature = "verif"))]
+mod verif_c07;
+#[cfg(all(test, feature = "verif"))]
 mod verif_c18;
 
 pub(crate) mod vote_extension;
